@@ -71,6 +71,10 @@ func (f Float64) ToString() String {
 }
 
 func (f Float64) Hash() UInt64 {
+	if f == 0 {
+		// -0.0 == 0.0: equal values must hash alike
+		f = 0
+	}
 	d := xxhash.New()
 	b := make([]byte, 8)
 	binary.LittleEndian.PutUint64(b, math.Float64bits(float64(f)))
